@@ -68,3 +68,31 @@ def _kel(spec, model):
     want = -2 * g * (M / rho) / (f * 8.31446261815324 * T * numpy.log(p))
     got = kelvin_radius(p, spec['geometry'], T, rho, M, g)
     return {'confirmed': not close(got, want, rel=1e-9), 'observed': float(got), 'expected': float(want)}
+
+
+@replayer('c16.history')
+def _hist(spec, model):
+    """two calculations in one process: the second one's widths equal those of the same calculation run first (fresh subprocess)"""
+    import os
+    import subprocess
+    import sys
+    import json
+    root = os.path.dirname(os.path.dirname(os.path.dirname(os.path.abspath(__file__))))
+    code = r'''
+import os, sys, json
+import pygaps, pygaps.parsing as pgp, pygaps.characterisation as pgc
+pygaps.logger.disabled = True
+iso = pgp.isotherm_from_json(os.path.join(os.environ.get('PGV_REPO', '/repo'), 'docs/examples/data/characterisation/MCM-41 N2 77.355.json'))
+out = []
+for branch, geom in json.loads(sys.argv[1]):
+    r = pgc.psd_mesoporous(iso, psd_model=sys.argv[2], pore_geometry=geom, branch=branch, thickness_model='zero thickness')
+    out.append([float(x) for x in r['pore_widths'][:5]])
+print(json.dumps(out))
+'''
+    env = dict(os.environ, PYTHONPATH=f"{os.environ.get('PGV_REPO', '/repo')}/src:{root}")
+    run = lambda seq: json.loads(subprocess.run([sys.executable, '-c', code, json.dumps(seq), spec['model']], capture_output=True, text=True, env=env,
+                                                timeout=300).stdout.strip().splitlines()[-1])
+    both = run([spec['first'], spec['second']])
+    alone = run([spec['second']])
+    same = numpy.allclose(both[1], alone[0], rtol=1e-12)
+    return {'confirmed': not same, 'observed': {'second_after_first': both[1], 'second_alone': alone[0]}, 'expected': 'identical pore widths'}
